@@ -25,6 +25,15 @@ CHECKS = {
  "C14": dict(cat="exploration", tech="mutate-and-resweep aliasing monitor; Go race detector attributed to goirc/state; porcupine linearizability check of timed concurrent histories against the C12 model",
    text="Every returned value is scribbled over and the tracker re-swept against the model; earlier values are compared with their deep copies after later operations; 3..8 goroutines hammer one tracker under -race; many short timed histories are checked for linearizability with porcupine. Held on the histories and interleavings observed (evidence reports overlapping operation pairs).",
    note="Trusted: porcupine v1.3.0; the C12 model as sequential specification; ticks from one atomic counter taken before the call and after the return.", ref="§4 C14"),
+ "C03": dict(cat="exploration", tech="offline trace checker over an ENTER/EXIT event log (ordering, non-overlap, CONNECTED/DISCONNECTED placement) under segmentation, handler-delay injection, GOMAXPROCS sweep and the race detector",
+   text="Numbered lines are sent through live in-memory connections cut into hostile segmentations (per byte, inside CRLF, lines longer than the read buffer) to verbs with several foreground and background handlers whose durations are drawn to provoke overlap; the event log must show one line's foreground handlers open at a time, strictly increasing dispatch, every handler once, CONNECTED after the welcome is applied and before later lines, DISCONNECTED after every foreground exit. Held on the schedules observed; evidence counts sessions where same-line overlap was seen (log can see overlap) and lines crossed segments.",
+   note="Trusted: the event log's tick is taken inside the append critical section, so log order is consistent with real time; schedules are sampled.", ref="§4 C03"),
+ "C15": dict(cat="exploration", tech="scribble-and-barrier monitor inside handlers + storage-identity check + race detector attributed to the handlers' writes",
+   text="Every handler invocation compares its line with the expected parse, scribbles over all of it, meets the other invocations of the event at a barrier and checks that only its own marks are present; backing arrays and tag maps must be pairwise distinct; the race detector watches the concurrent writes. Held on the events and interleavings produced.",
+   note="Trusted: reflect pointers identify storage; the expected line is computed by a deep copy that does not use Line.Copy.", ref="§4 C15"),
+ "C16": dict(cat="exploration", tech="invocation-counter and recovery-hook oracles at sync markers under injected panics and permanently parked background handlers; dead-state proof when a marker is not reached",
+   text="User foreground/background and built-in handlers are made to panic with five value kinds at PRNG positions under the default and a custom recovery, next to 0..8 background handlers that never return; at markers every well-behaved handler's count must equal the number of events, the recovery function must have run once per panic with that value and line (default: an error record), and later markers must be reached. Held on the sessions explored.",
+   note="Trusted: counters are atomic; a marker not reached is a violation only with a goroutine-census dead-state proof.", ref="§4 C16"),
 }
 
 NOT_BUILT = "check not built yet in this round (planned, see DESIGN.md §4)"
